@@ -175,7 +175,8 @@ func poke(c chan struct{}) {
 
 // Faults of one end of a stream connection (set by scenarios; ops are counted from 1).
 type Faults struct {
-	ReadErrAt    int // the k-th Read returns ReadErr (and every later one)
+	ReadErrAt    int  // the k-th Read returns ReadErr (and every later one, unless ReadErrOnce)
+	ReadErrOnce  bool // only that one Read fails (a transient error)
 	ReadErr      error
 	WriteErrAt   int // the k-th Write returns WriteErr
 	WriteErr     error
@@ -289,7 +290,7 @@ func (c *Conn) Read(p []byte) (int, error) {
 	f := c.Faults
 	c.mu.Unlock()
 	rec("net", c.Name+" read-call", int64(c.ID), int64(k), 0, nodeFlag(c.NodeSide))
-	if f.ReadErrAt > 0 && k >= f.ReadErrAt {
+	if f.ReadErrAt > 0 && (k == f.ReadErrAt || (k > f.ReadErrAt && !f.ReadErrOnce)) {
 		dsim.Probe("fault:read-error")
 		rec("net", c.Name+" read-fault "+f.ReadErr.Error(), int64(c.ID))
 		return 0, f.ReadErr
@@ -508,6 +509,20 @@ func (c *Conn) Reset() {
 		poke(h.wwake)
 	}
 	rec("net", c.Name+" reset", int64(c.ID))
+}
+
+// ReadCount is the number of Read calls made on this end so far.
+func (c *Conn) ReadCount() int {
+	c.mu.Lock()
+	defer c.mu.Unlock()
+	return c.NReads
+}
+
+// WriteCount is the number of Write calls made on this end so far.
+func (c *Conn) WriteCount() int {
+	c.mu.Lock()
+	defer c.mu.Unlock()
+	return c.NWrites
 }
 
 // Times returns when a block fault first blocked and when a write first failed.
